@@ -262,9 +262,8 @@ def run_case(case):
 def gates(obs, tier):
     calls = obs.get("calls", {})
     return {
-        "writer_and_reader_reached": calls.get("MiniShard.flush_buffer", 0) > 0
-        and calls.get("ReadableMiniShardCMC.fetch_cmc_chunk", 0) > 0,
-        "on_disk_buffer_reached": calls.get("OnDiskBytesDict.__setitem__", 0) > 0,
+        "writer_and_reader_reached": obs.get("calls_by_module", {}).get(
+            "sharded_file_accessor", 0) > 0 and obs.get("fetch_checks", 0) > 0,
         "gap_start": obs.get("gap_start", 0) > 0,
         "gap_middle": obs.get("gap_middle", 0) > 0,
         "gap_end": obs.get("gap_end", 0) > 0,
